@@ -77,6 +77,7 @@ func registry() []PropSpec {
 		{
 			ID: "C13",
 			Quick: []HarnessSpec{
+				{Pkg: pkgRefClient, Func: "H13g_q", Unwind: 12, Note: "1..3 traced HTTP operations under one call context (a followed redirect): no panic, the call's wire details stay available"},
 				{Pkg: pkgRefClient, Func: "H13f_q", Unwind: 12, Only: []string{"(*encoding/base64.Encoding).DecodeString=vModelB64DecodeString", "google.golang.org/protobuf/proto.Unmarshal=vModelUnmarshalStatus"}, Note: "checkGRPCStatus: grpc-status 0..16, grpc-message (present or not) = PercentEncodeMessage of any ASCII string of <=2 bytes, grpc-status-details-bin carrying any code 0..16, 0..1 details and any ASCII message of <=2 bytes: no feedback iff the three agree; base64 / protobuf decoding are contract stubs symbolically and real natively"},
 				{Pkg: pkgRefClient, Func: "H13e_q", Unwind: 12, Only: []string{rc + "examineConnectError=vModelExamineConnectError", rc + "examineConnectEndStream=vModelExamineConnectEndStream", rc + "examineGRPCEndStream=vModelExamineGRPCEndStream", rc + "checkGRPCStatus=vModelCheckGRPCStatus"}, Note: "examineWireDetails dispatch: 9 content types (Connect unary/stream, gRPC-Web, gRPC, others), status 200/400, HTTP trailer present or not, body-data event, end-stream event, trace error; the four examiners are recorders symbolically (natively the real ones run on well-formed contents)"},
 				{Pkg: pkgRefClient, Func: "H13a_q", Unwind: 24, Note: "checkGRPCStatus on grpc-status 1..16 and grpc-message = PercentEncodeMessage(m) / m itself, for every byte string m of length <=3"},
